@@ -515,6 +515,7 @@ def normalize_model_rec(r):
     r.setdefault("cov", [1, 1])
     r.setdefault("covlen", [0, 1])     # [0, 1] = length coverage not requested
     r.setdefault("elen", [])           # edge lengths parallel to edges (NONE = attribute absent), [] = no lengths
+    r.setdefault("nlen", [])           # node lengths parallel to nodes (node mode), same convention
     r.setdefault("cons_kind", "edge")
     r.setdefault("opt", {})
     r.setdefault("faults", {})
